@@ -12,6 +12,7 @@ import (
 	"math/rand"
 	"net"
 	"os/exec"
+	"runtime"
 	"sync"
 	"testing"
 	"time"
@@ -430,11 +431,28 @@ func TestVerifC03RealTCP(t *testing.T) {
 			probes = append(probes, probe{dst, "random-16384", rb(16384), true})
 		}
 	}
+	// the collector may run at any moment in a real station; here it runs every 50 ms while the probes overlap, so that
+	// anything the handler leaves to finalizers (descriptors, buffers) is finalized while other connections are live
+	gcStop := make(chan struct{})
+	defer close(gcStop)
+	go func() {
+		for {
+			select {
+			case <-gcStop:
+				return
+			case <-time.After(50 * time.Millisecond):
+				runtime.GC()
+			}
+		}
+	}()
 	var wg sync.WaitGroup
 	for i, p := range probes {
 		wg.Add(1)
 		go func(i int, p probe) {
 			defer wg.Done()
+			if i >= 32 {
+				time.Sleep(time.Duration(i-31) * 40 * time.Millisecond) // the second half arrives staggered: accepts reuse descriptors
+			}
 			label := fmt.Sprintf("#%d dst=%s kind=%s len=%d", i, p.dst, p.kind, len(p.data))
 			t0 := time.Now() // before connect()
 			c, err := net.DialTimeout("tcp", p.dst, 20*time.Second)
